@@ -17,7 +17,7 @@ SrvBusy == \/ spc \in {"getl", "setrun", "check", "tcheck", "echeck", "inc", "sp
            \/ (spc = "refresh" /\ ~gate)
            \/ (spc = "wait" /\ wg = 0)
            \/ (spc = "accept" /\ lstate[sl] = "closed")
-HBusy == \E c \in Clients : cst[c] = "ended"
+HBusy == \E c \in Clients : cst[c] = "ended" \/ (cancelled /\ cst[c] = "handled")
 Quiescent == ~SrvBusy /\ ~HBusy /\ sdpc # "cleared" /\ bdpc = "idle" /\ rgpc = "idle"
 
 Op(o) == sched' = Append(sched, o)
@@ -27,7 +27,7 @@ Hows == IF Ifaces = {} THEN {"close", "abort", "herr"} ELSE {"close", "introspec
 ProbeStep(c) ==
   /\ cst[c] = "idle" /\ spc = "accept" /\ listener # 0 /\ lstate[listener] = "open" /\ sl = listener
   /\ cst' = [cst EXCEPT ![c] = "released"] /\ cl' = [cl EXCEPT ![c] = listener]
-  /\ UNCHANGED <<running, listener, lstate, nextid, counter, wg, names, spc, sl, tmo, acc, sret, rounds, expiries,
+  /\ UNCHANGED <<running, listener, lstate, nextid, counter, wg, names, cancelled, spc, sl, tmo, acc, sret, rounds, expiries,
                  sdpc, bdpc, rgpc, rgarg, rgret, gate, g_sdWaiting, g_sdDoneAt, g_servedEp, g_regs>>
 MacroStep ==
   /\ Len(sched) < MaxOps
@@ -49,6 +49,7 @@ EnvStep ==
      \/ sdpc = "idle" /\ (S_All \/ S_Clear) /\ Op([op |-> "Shutdown"])
      \/ \E c \in Clients, h \in Hows : EndClient(c) /\ Op([op |-> "End", c |-> c, how |-> h])
      \/ spc # "idle" /\ running /\ B_Check /\ Op([op |-> "Bind2"])
+     \/ CtxCancel /\ Op([op |-> "Cancel"])
      \/ \E i \in Ifaces : R_Start(i) /\ Op([op |-> "Register", i |-> i])
      \/ sdpc = "done" /\ S_Again /\ UNCHANGED sched
 
